@@ -97,6 +97,15 @@ P("C19", "model_checking",
   "every From<u8> conversion of all 256 bytes for command codes and message types and 0-5 for completion codes; distinct = distinct (enum, byte)",
   models=["MC_Layout"], families=["conv"], exhaustive_quick=True, exhaustive_thorough=True)
 
+# thorough tier: the random families are run under several seeds (a sharded run of a family that does not split
+# its own work is the same family under another seed, see harness/src/drivers.rs)
+def _mult(fams, m):
+    return [((f, m[f]) if (isinstance(f, str) and f in m and f != "tour") else f) for f in fams]
+
+_THOROUGH_SEEDS = {"history": 4, "bus": 4, "forge": 2, "mutate": 2, "robust": 2, "vendor_enum": 3, "identity": 2, "requests": 2, "responses": 2}
+for _p in PLAN.values():
+    _p["families_thorough"] = _mult(_p.get("families", []), _THOROUGH_SEEDS)
+
 # the committed finding scenarios are replayed by the checks of the properties they concern (regression:
 # a repaired defect that returns is reported again, an open one is matched against its recorded deviation)
 import json as _json, os as _os
